@@ -135,6 +135,26 @@ pub fn main(args: &[String]) {
             });
             println!("CORPUS {} {}", which, match r { Ok(true) => "OK", Ok(false) => "NONFINITE", Err(_) => "PANIC" });
         }
+        "hidden-grid-demo" => {
+            // C05: a display:none child with a definite grid line must not create implicit tracks
+            let mut t: TaffyTree<Ctx> = TaffyTree::new();
+            let vis = t.new_leaf(Style { size: Size::from_lengths(7.0, 7.0), ..Default::default() }).unwrap();
+            let hid = t
+                .new_leaf(Style {
+                    display: Display::None,
+                    grid_row: Line { start: GridPlacement::from_line_index(5), end: GridPlacement::Auto },
+                    ..Default::default()
+                })
+                .unwrap();
+            let root = t
+                .new_with_children(
+                    Style { display: Display::Grid, grid_auto_rows: vec![length(7.0)], ..Default::default() },
+                    &[vis, hid],
+                )
+                .unwrap();
+            compute(&mut t, root, Size::MAX_CONTENT);
+            println!("HEIGHT {}", t.layout(root).unwrap().size.height);
+        }
         "one" => {
             let seed: u64 = args[1].parse().unwrap();
             let idx: u64 = args[2].parse().unwrap();
